@@ -212,7 +212,7 @@ class FloatEnumParam(Parameter):
     PREFIXES = {'q': -30, 'r': -27, 'y': -24, 'z': -21, 'a': -18, 'f': -15,
                 'p': -12, 'n': -9, 'u': -6, 'µ': -6, 'm': -3,
                 '': 0, 'k': 3, 'M': 6, 'G': 9, 'T': 12,
-                'P': 15, 'E': 18, 'Z': 21, 'Y': 24, 'R': 25, 'Q': 30}
+                'P': 15, 'E': 18, 'Z': 21, 'Y': 24, 'R': 27, 'Q': 30}
 
     def __init__(self, description=None, labels=None, unit='',
                  *, datatype=None, readonly=False, **kwds):
